@@ -100,7 +100,7 @@ class Engine:
         out = self.drv.ask_many([("infer", str(k)) + tuple(ds) for k, ds in reqs])
         return [tyconv.canon(t) for t in out]
 
-    def cases(self, tier, n_random, small_size, pair_limit):
+    def cases(self, tier, n_random, small_size, pair_limit, n_dicts=None, n_records=None):
         """yield lists of descriptors: corpus-like fixed cases, exhaustive small scope, random multisets"""
         sv = small_values(self.tbl, small_size)
         self.chk.extra["small_scope"] = {"max_size": small_size, "singletons": len(sv)}
@@ -117,10 +117,12 @@ class Engine:
         self.chk.extra["small_scope"]["pairs_exhaustive"] = pairs < pair_limit
         for _ in range(n_random):
             yield "random", self.gen.multiset()
+        for _ in range(n_random if n_records is None else n_records):
+            yield "records", self.gen.record_multiset()
         # dict-heavy stream around each k (C06): 0..12 keys
-        for _ in range(n_random // 3):
-            n = self.chk.rng.randrange(0, 13)
-            base = self.gen.dict_value(self.chk.rng.choice(["dict", "dict", "ddict"]), 2, nkeys=n)
+        for _ in range(n_random // 3 if n_dicts is None else n_dicts):
+            n = self.chk.rng.choice([0, 1, 1, 2, 2, 3, 3, 3, 4, 4, 5, 6, 7, 9, 10, 11, 12])
+            base = self.gen.dict_value(self.chk.rng.choice(["dict", "dict", "dict", "ddict"]), 2, nkeys=n)
             ms = [base] + [self.gen.mutate(base, 2) for _ in range(self.chk.rng.randrange(0, 4))]
             if self.chk.rng.random() < 0.3:
                 ms = [("list",) + tuple(ms)]
